@@ -311,6 +311,12 @@ class Folder:
             return {"list": list, "tuple": tuple, "set": frozenset, "frozenset": frozenset}[fn.id](v)
         if isinstance(fn, ast.Name) and fn.id == "len" and len(expr.args) == 1:
             return len(self.fold(expr.args[0], scope))
+        if isinstance(fn, ast.Name) and fn.id in ("min", "max", "abs", "int", "bool") and expr.args and not expr.keywords:
+            args = [self.fold(a, scope) for a in expr.args]
+            try:
+                return {"min": min, "max": max, "abs": abs, "int": int, "bool": bool}[fn.id](*args)
+            except Exception as e:  # noqa
+                raise Unfoldable(str(e))
         if isinstance(fn, ast.Attribute) and fn.attr in ("items", "keys", "values") and not expr.args:
             base = self.fold(fn.value, scope)
             if isinstance(base, dict):
